@@ -1,4 +1,4 @@
-import Driver.Common
+import Driver.Run
 import Driver.C17
 import Driver.C15
 import Driver.C16
@@ -15,39 +15,5 @@ import Driver.C12
 import Driver.C08
 import Driver.C14
 
-open Driver
-
-def dispatch (st : St) (op : String) (args : List String) (impl : Option String) :
-    St × Out :=
-  let hs : List (St → String → List String → Option String → Option (St × Out)) :=
-    [Driver.C17.handle, Driver.C15.handle, Driver.C16.handle, Driver.C06.handle, Driver.C19.handle, Driver.C09.handle, Driver.Serve.handle, Driver.C11.handle, Driver.C14.handle, Driver.C18.handle, Driver.C07.handle, Driver.C20.handle, Driver.C05.handle, Driver.C12.handle, Driver.C08.handle]
-  let rec go : List (St → String → List String → Option String → Option (St × Out)) → St × Out
-    | [] => (st, { model := "bad-op", spec := "-" })
-    | h :: t => match h st op args impl with
-      | some r => r
-      | none => go t
-  go hs
-
-def processLine (st : St) (line : String) : St × String :=
-  let line := line.trimAscii.toString
-  let (cmd, impl) := match line.splitOn " | " with
-    | [c] => (c, none)
-    | c :: rest => (c, some (" | ".intercalate rest))
-    | [] => ("", none)
-  match splitTokens cmd with
-  | [] => (st, "M=empty\tS=-")
-  | op :: args =>
-    let (st', o) := dispatch st op args impl
-    (st', s!"M={o.model}\tS={o.spec}")
-
-partial def loop (hin hout : IO.FS.Stream) (st : St) : IO Unit := do
-  let line ← hin.getLine
-  if line.isEmpty then return ()
-  let (st', out) := processLine st line
-  hout.putStrLn out
-  loop hin hout st'
-
-def main : IO Unit := do
-  let hin ← IO.getStdin
-  let hout ← IO.getStdout
-  loop hin hout {}
+def main : IO Unit :=
+  Driver.runMain [Driver.C17.handle, Driver.C15.handle, Driver.C16.handle, Driver.C06.handle, Driver.C19.handle, Driver.C09.handle, Driver.Serve.handle, Driver.C11.handle, Driver.C14.handle, Driver.C18.handle, Driver.C07.handle, Driver.C20.handle, Driver.C05.handle, Driver.C12.handle, Driver.C08.handle]
